@@ -220,7 +220,41 @@ def h_special(ctx, case):
     ctx.require(False, f"{case}: invalid value refused", "accepted")
 
 
-HARNESSES = {"construct": h_construct, "assign": h_assign, "special": h_special}
+def h_special_builders(ctx, case):
+    """the conditional allowed values inherited from the server base class hold for the builder servers too (cloud-instance
+    server, GPU server): a fixed instance count only with on-premise"""
+    from harness import c17
+    from efootprint.builders.hardware.boavizta_cloud_server import BoaviztaCloudServer
+    from efootprint.core.hardware.gpu_server import GPUServer
+    from efootprint.core.hardware.server_base import ServerTypes
+    from efootprint.core.hardware.storage import Storage
+    env = c17.builder_env(ctx, "cloud")
+    A = c17.builder_system(ctx, env, "cloud", ["scaleway", "ent1-s"])
+    V.observe_system(ctx, A)
+    before = S.snapshot(A)
+    three = lambda: SourceValue(3 * u.dimensionless)  # noqa
+    acts = {
+        "cloud_fixed_count_on_autoscaling": lambda: setattr(A["srv"], "fixed_nb_of_instances", three()),
+        "cloud_construct_fixed_on_autoscaling": lambda: BoaviztaCloudServer.from_defaults(
+            "x", server_type=ServerTypes.autoscaling(), fixed_nb_of_instances=three(), storage=Storage.from_defaults("stx")),
+        "cloud_construct_fixed_on_serverless": lambda: BoaviztaCloudServer.from_defaults(
+            "x", server_type=ServerTypes.serverless(), fixed_nb_of_instances=three(), storage=Storage.from_defaults("stx")),
+        "gpu_construct_fixed_on_serverless": lambda: GPUServer.from_defaults(
+            "g", server_type=ServerTypes.serverless(), fixed_nb_of_instances=three(), storage=Storage.from_defaults("stg")),
+        "cloud_grouped_fixed_after_job_change": lambda: ModelingUpdate(
+            [[A["pjob"].data_transferred, SourceValue(7 * u.MB)], [A["srv"].fixed_nb_of_instances, three()]]),
+        "cloud_instance_type_of_other_provider": lambda: setattr(A["srv"], "instance_type", SourceObject("a1.4xlarge")),
+    }
+    try:
+        acts[case]()
+    except Exception:  # noqa
+        ctx.count("refused")
+        S.compare_snapshots(ctx, before, S.snapshot(A), f"after refused {case}")
+        return
+    ctx.require(False, f"{case}: invalid value refused", "accepted")
+
+
+HARNESSES = {"construct": h_construct, "assign": h_assign, "special": h_special, "special_builders": h_special_builders}
 TYPE_KINDS = ["type:float", "type:str", "type:object", "type:hourly", "type:quantity"]
 
 
@@ -277,4 +311,7 @@ def plan(tier, seed):
                  "fixed_count_on_autoscaling_after_job_change", "type_autoscaling_with_fixed_count_after_network_change",
                  "fixed_count_on_autoscaling_before_step_change"):
         p.append(("special", dict(case=case), dict(allow_no_obligation=False)))
+    for case in ("cloud_fixed_count_on_autoscaling", "cloud_construct_fixed_on_autoscaling", "cloud_construct_fixed_on_serverless",
+                 "gpu_construct_fixed_on_serverless", "cloud_grouped_fixed_after_job_change", "cloud_instance_type_of_other_provider"):
+        p.append(("special_builders", dict(case=case), dict(allow_no_obligation=False)))
     return p
